@@ -36,6 +36,48 @@ def snapshot(m):
     return enc, tree(m), val
 
 
+def standalone_job(a):
+    """(version, segment, [field, component, sub]): the same reads — and the read of `.value` — on a free-standing Segment that holds nothing
+    (a standalone MSH has no MSH-1 / MSH-2: seed C11-h). A read may raise; it may not write."""
+    from hl7apy.core import Segment
+    v, S, names = a
+    try:
+        s = Segment(S, version=v)
+    except Exception as e:  # noqa
+        return 'ok mk:' + vlib.exc_name(e)
+    base = snapshot(s)
+    names = [n.lower() for n in names if n]
+    for r in range(2):
+        for depth in range(1, len(names) + 1):
+            for what in ('len', 'iter', 'repr', 'to_er7', 'value', 'index', 'children', 'validate'):
+                try:
+                    x = s
+                    for n in names[:depth]:
+                        x = getattr(x, n)
+                    if what == 'len':
+                        len(x)
+                    elif what == 'iter':
+                        [y for y in x]
+                    elif what == 'repr':
+                        repr(x)
+                    elif what == 'to_er7':
+                        x.to_er7()
+                    elif what == 'value':
+                        x.value
+                    elif what == 'index':
+                        x[0]
+                    elif what == 'children':
+                        list(x.children)
+                    else:
+                        x.validate(return_errors=True)
+                except Exception:  # noqa
+                    pass
+                now = snapshot(s)
+                if now != base:
+                    return 'read-wrote standalone %s: %s of %s (pass %d): before=%r after=%r' % (S, what, '.'.join(names[:depth]), r, base[:2], now[:2])
+    return 'ok 0'
+
+
 def chain_job(a):
     """a = dict(version, structure, groups=[...], segment, field, component|None, sub|None, spelling='name'|'path', value, reads, expected_line)"""
     try:
